@@ -24,6 +24,7 @@ import gc
 import os
 import re
 import sys
+import threading
 import warnings
 
 sys.path.insert(0, os.path.dirname(os.path.dirname(os.path.abspath(__file__))))
@@ -31,6 +32,7 @@ sys.path.insert(0, os.path.dirname(os.path.dirname(os.path.abspath(__file__))))
 from simkit import clock, driver, fork  # noqa: E402
 from simkit.driver import bump, new_result, shrink_list  # noqa: E402
 from simkit.rng import Rng, digest  # noqa: E402
+from simkit.threads import SimThreads  # noqa: E402
 from workload import gen as G  # noqa: E402
 from workload.runtime import build_data, outcome  # noqa: E402
 
@@ -252,7 +254,7 @@ class C11:
     ]
     REQUIRED_REACH = ["reach.order_variation_compared", "reach.pristine_compared", "reach.equal_hash_envs_alive", "reach.flood_rolled_parser_cache", "reach.parse_after_mutation",
                       "reach.interleaved_envs", "reach.implicit", "reach.custom_delims", "reach.dropped_env",
-                      "reach.regex_meta_delims", "reach.letter_delims"]
+                      "reach.regex_meta_delims", "reach.letter_delims", "reach.thread_switch_inside_op"]
 
     def process_init(self):
         fork.init_zygote(evaluate_probe)
@@ -321,6 +323,8 @@ class C11:
                 recipe["extra"] = not recipe["extra"]
             if rng.chance(0.25):
                 recipe["template_comments"] = not recipe["template_comments"]
+            if rng.chance(0.3):
+                recipe["comment_delims_always"] = not recipe.get("comment_delims_always")
             specs.append({"label": "E%d" % i, "recipe": recipe, "delims": rng.randrange(len(delim_sets)),
                           "custom": {"filter": rng.chance(0.6), "tag": rng.chance(0.6)}, "partials": partials})
         datas = [G.gen_data(rng) for _ in range(rng.randint(1, 2))]
@@ -346,7 +350,13 @@ class C11:
                 op["n"] = rng.choice([129, 140, 300])
                 op["same_delims"] = rng.chance(0.5)
             ops.append(op)
-        return {"specs": specs, "delim_sets": delim_sets, "trees": trees, "datas": datas, "ops": ops}
+        sc = {"specs": specs, "delim_sets": delim_sets, "trees": trees, "datas": datas, "ops": ops}
+        if rng.chance(0.3):
+            # the same operations from 2-3 threads, each with its own environments
+            sc.update(threads=rng.randint(2, 3), switch_p=rng.choice([0.02, 0.1, 0.3]),
+                      tsched_seed=rng.randrange(1 << 30))
+            sc["ops"] = [op for op in ops if op["op"] != "flood"]
+        return sc
 
     # -- execution ---------------------------------------------------------------
     def run(self, sc):
@@ -391,7 +401,7 @@ class C11:
         warnings.simplefilter("ignore")
         CLOCK.set(clock.EPOCH_US)
         res["probes"] = []
-        live = {}            # spec index -> (env, mutations list)
+        live = _PerThread()  # spec index -> (env, mutations list); every simulated thread has its own environments
         history = []
         last_spec = [None]
         interleaved = [0]
@@ -433,7 +443,7 @@ class C11:
                 bump(st, "reach.interleaved_envs")
             last_spec[0] = i
 
-        for op in sc["ops"]:
+        def exec_op(op):
             k = op["op"]
             bump(st, "op." + k)
             i = op["spec"]
@@ -505,12 +515,19 @@ class C11:
                 history.append([op["uid"], k, i, got[0], got[1] if got[0] == "err" else digest(got[1])])
                 res["probes"].append({"uid": op["uid"], "op": op, "kind": k, "key": key, "probe": probe, "got": got,
                                       "delims": d})
-            if viol:
-                break
-        res["steps"] = len(history)
-        res["isig"] = digest([(h[0], h[1]) for h in history])
-        res["digest"] = digest(history)
-        res["nontrivial"] = interleaved[0] > 0
+
+        nthreads = sc.get("threads") or 0
+        if not nthreads:
+            for op in sc["ops"]:
+                exec_op(op)
+                if viol:
+                    break
+        else:
+            self._run_threads(sc, res, exec_op, history)
+        res["steps"] = res.get("steps") or len(history)
+        res["isig"] = res.get("isig") or digest([(h[0], h[1]) for h in history])
+        res["digest"] = digest((history, res.get("isig")))
+        res["nontrivial"] = interleaved[0] > 0 or bool(nthreads and st.get("reach.thread_switch_inside_op"))
         seen, out = set(), []
         for v in viol:
             if v["sig"] not in seen:
@@ -518,6 +535,47 @@ class C11:
                 out.append(v)
         res["violations"] = out
         return res
+
+    TRACE_FILES = ("liquid/lex.py", "liquid/parser.py", "liquid/environment.py", "liquid/stream.py",
+                   "liquid/builtin/tags/liquid_tag.py", "liquid/builtin/tags/ifchanged_tag.py")
+
+    def _run_threads(self, sc, res, exec_op, history):
+        """The same operations, dealt round-robin to 2-3 simulated threads that each own their
+        environments: real threads under the seeded baton scheduler, pre-empted at every line of
+        the lexer / parser / environment modules (where the process-wide memo caches live)."""
+        st = res["stats"]
+        rng = Rng(sc["tsched_seed"], ("tsched",))
+        sim = SimThreads(rng, switch_p=sc["switch_p"], trace_files=self.TRACE_FILES, step_cap=6_000_000)
+        n = sc["threads"]
+        ops = [op for op in sc["ops"] if op["op"] != "flood"]
+        inside = [0]
+
+        def client(mine):
+            def body():
+                for op in mine:
+                    sim.point("op")
+                    if res["violations"]:
+                        return
+                    sw0 = sim.switches
+                    exec_op(op)
+                    if sim.switches != sw0:
+                        inside[0] += 1
+            return body
+        for t in range(n):
+            sim.spawn("t%d" % t, client(ops[t::n]))
+        sim.run()
+        herr = [t for t in sim.threads if t.error is not None]
+        if herr:
+            raise RuntimeError("client thread harness error") from herr[0].error
+        if sim.aborted == "STEP-CAP":
+            raise RuntimeError("HARNESS-TIMEOUT: step cap reached in SimThreads")
+        if sim.aborted == "DEADLOCK":
+            res["violations"].append({"oracle": "threads", "sig": "threads:deadlock", "detail": {}})
+        bump(st, "runs.threads")
+        bump(st, "thread.switches", sim.switches)
+        bump(st, "reach.thread_switch_inside_op", inside[0])
+        res["steps"] = sim.steps
+        res["isig"] = digest(sim.trace)
 
     def _judge(self, add, op, got, custom, canon, kind, d, ref="pristine"):
         got, custom, canon = tuple(got), tuple(custom), tuple(canon)
@@ -564,6 +622,12 @@ class C11:
     def shrink(self, sc):
         for cand in shrink_list(sc["ops"]):
             yield {**sc, "ops": cand}
+        if sc.get("threads"):
+            yield {k: v for k, v in sc.items() if k not in ("threads", "switch_p", "tsched_seed")}
+            if sc["threads"] > 2:
+                yield {**sc, "threads": 2}
+            for d in range(1, 4):
+                yield {**sc, "tsched_seed": (sc["tsched_seed"] * 31 + d) % (1 << 30)}
         if sc["ops"]:
             comp = self._compact(sc)
             if (len(comp["specs"]), len(comp["trees"]), len(comp["datas"]), len(comp["delim_sets"])) != \
@@ -583,6 +647,34 @@ class C11:
         for j, op in enumerate(sc["ops"]):
             if op["op"] == "flood" and op["n"] > 129:
                 yield {**sc, "ops": sc["ops"][:j] + [{**op, "n": 129}] + sc["ops"][j + 1:]}
+
+
+class _PerThread:
+    """A dict per calling thread (the sequential history uses the main thread's)."""
+
+    def __init__(self):
+        self.by = {}
+
+    def _d(self):
+        return self.by.setdefault(threading.get_ident(), {})
+
+    def __contains__(self, k):
+        return k in self._d()
+
+    def __getitem__(self, k):
+        return self._d()[k]
+
+    def __setitem__(self, k, v):
+        self._d()[k] = v
+
+    def __delitem__(self, k):
+        del self._d()[k]
+
+    def __len__(self):
+        return len(self._d())
+
+    def items(self):
+        return list(self._d().items())
 
 
 def _plain_raw(nodes):
